@@ -25,6 +25,10 @@ type c18bCase struct {
 	Regen    bool   `json:"regen"`
 	CasRetry bool   `json:"cas_retry"`
 	Mutate   string `json:"mutate"` // what moves the CAS when CasRetry: "" (spurious) | other-xattr
+	// Shape of the document's revision tree: "" one revision | "remote-won" a conflicting revision replicated from
+	// another Sync Gateway won against the local second revision (which conflict resolution tombstoned, without a body)
+	// | "all-deleted" the same, and the winning branch was then deleted (the document is deleted on every branch)
+	Shape string `json:"shape,omitempty"`
 }
 
 const c18bFnOld = `function (doc, oldDoc, meta) { channel("old_" + doc.chan); }`
@@ -53,10 +57,41 @@ func c18bRun(t testing.TB, r *vreport.Report, c c18bCase, n int) {
 			t.Fatalf("import: %v", err)
 		}
 	}
+	if c.Shape != "" {
+		rev1 := ""
+		if d, err := coll.GetDocument(ctx, docID, DocUnmarshalSync); err == nil {
+			rev1 = d.GetRevTreeID()
+		}
+		if _, _, err := coll.Put(ctx, docID, Body{BodyRev: rev1, "chan": c.BodyChan, "v": 2}); err != nil {
+			t.Fatalf("put rev 2: %v", err)
+		}
+		cur, err := coll.GetDocument(ctx, docID, DocUnmarshalSync)
+		if err != nil {
+			t.Fatalf("read: %v", err)
+		}
+		incoming := &HybridLogicalVector{SourceID: "cmVtb3Rl", Version: cur.HLV.Version + 1000000000000, PreviousVersions: HLVVersions{}}
+		newDoc := &Document{ID: docID, RevID: "2-vvc", HLV: incoming}
+		newDoc.UpdateBody(Body{"chan": "rc"})
+		if _, _, _, err := coll.PutExistingCurrentVersion(ctx, PutDocOptions{NewDoc: newDoc, RevTreeHistory: []string{"2-vvc", rev1}, NewDocHLV: incoming, ISGRWrite: true,
+			ConflictResolver: NewConflictResolver(DefaultLWWConflictResolutionType, nil)}); err != nil {
+			t.Fatalf("replicated conflicting revision: %v", err)
+		}
+		if c.Shape == "all-deleted" {
+			if _, _, err := coll.DeleteDoc(ctx, docID, DocVersion{RevTreeID: "2-vvc"}); err != nil {
+				t.Fatalf("delete of the winning branch: %v", err)
+			}
+		}
+	}
 	coll.ChannelMapper = channels.NewChannelMapper(ctx, c18bFnNew, v.db.Options.JavascriptTimeout)
 	want := "b_" + c.BodyChan
 	if c.Xattr != "" {
 		want = "x_" + c.Xattr
+	}
+	switch c.Shape {
+	case "remote-won":
+		want = "b_rc"
+	case "all-deleted":
+		want = "" // a document deleted on every branch is in no channel
 	}
 	H := v.vb.H
 	if c.CasRetry {
@@ -82,6 +117,9 @@ func c18bRun(t testing.TB, r *vreport.Report, c c18bCase, n int) {
 	err := coll.ResyncDocument(ctx, docID, nil, c.Regen)
 	H.Plan, H.Select, H.Enabled = nil, nil, false
 	tag := fmt.Sprintf("xattr=%v/regenerate=%v/cas_retry=%v/%s", c.Xattr != "", c.Regen, c.CasRetry, c.Mutate)
+	if c.Shape != "" {
+		tag += "/" + c.Shape
+	}
 	if err != nil && err != base.ErrUpdateCancel {
 		r.Violate("C18/document/resync-failed/"+tag, fmt.Sprintf("%v; %+v", err, c), c)
 		return
@@ -100,7 +138,14 @@ func c18bRun(t testing.TB, r *vreport.Report, c c18bCase, n int) {
 		sort.Strings(l)
 		return strings.Join(l, ",")
 	}
-	if got := active(); got != want {
+	if c.Shape == "all-deleted" {
+		// resync leaves deleted documents alone (their channel assignment only routes the deletion itself); what is
+		// required of it here is that it neither fails nor revives a grant or channel of the revisions underneath
+		if got := active(); strings.Contains(got, "b_bc") || strings.Contains(got, "b_rc") {
+			r.Violate("C18/document/deleted-document-in-a-live-revisions-channel/"+tag, fmt.Sprintf("after resync the deleted document is in [%s]; %+v", got, c), c)
+			return
+		}
+	} else if got := active(); got != want {
 		r.Violate("C18/document/channels-wrong/"+tag, fmt.Sprintf("after resync the document is in [%s], the new function assigns [%s]; %+v", got, want, c), c)
 		return
 	}
@@ -138,6 +183,21 @@ func TestVerifC18Document(t *testing.T) {
 				if retry == "other-xattr" {
 					c.Mutate = "other-xattr"
 				}
+				c18bRun(t, r, c, n)
+				r.Add("evaluations", 1)
+				r.Add("distinct_nontrivial", 1)
+				r.Sample(c)
+			}
+		}
+	}
+	for _, shape := range []string{"remote-won", "all-deleted"} {
+		for _, regen := range []bool{false, true} {
+			for _, retry := range []bool{false, true} {
+				n++
+				if !r.Mine(n) {
+					continue
+				}
+				c := c18bCase{BodyChan: "bc", Regen: regen, CasRetry: retry, Shape: shape}
 				c18bRun(t, r, c, n)
 				r.Add("evaluations", 1)
 				r.Add("distinct_nontrivial", 1)
